@@ -148,3 +148,12 @@ Example C11_example :
   | None => False
   end.
 Proof. vm_compute. repeat split. Qed.
+
+(** non-vacuity of (c): Startup command + its response + a second Startup command: three objects, the ones the
+    decoder returns for the three messages *)
+Example C11_stream_example :
+  let c := [128;1;0;0;0;12;0;0;1;68;0;0] in let r := [128;1;0;0;0;10;0;0;0;0] in
+  events_to_objs Tables.T (evs_of (map fst (fst (decode Tables.T true RStream (c ++ r ++ c))))) =
+  [decode_obj Tables.T true RCommand c; decode_obj Tables.T true (RResponse (Some 324) false) r; decode_obj Tables.T true RCommand c] /\
+  decode_obj Tables.T true RCommand c <> None /\ decode_obj Tables.T true (RResponse (Some 324) false) r <> None.
+Proof. vm_compute. repeat split; discriminate. Qed.
